@@ -1,9 +1,9 @@
 #!/bin/sh
 # usage: tools/runall.sh [tier]  -- runs every registered check once and prints one line each
 tier=${1:-quick}
-cd /verif
+cd "$(dirname "$0")/.."
 for p in $(python3 -c "
-import sys; sys.path.insert(0,'/verif')
+import sys; sys.path.insert(0,'.')
 from checks_table import CHECKS
 print(' '.join(sorted(CHECKS)))"); do
   start=$(date +%s)
